@@ -8,6 +8,7 @@ use crate::time_sync::TimeSync;
 use crate::{
     Config, DesyncDetection, Frame, GgrsError, NonBlockingSocket, PlayerHandle, NULL_FRAME,
 };
+use bincode::Options;
 use tracing::{trace, warn};
 
 use instant::{Duration, Instant};
@@ -119,7 +120,13 @@ impl InputBytes {
             let start = p * size;
             let end = start + size;
             let player_byte_slice = &self.bytes[start..end];
-            let input: T::Input = bincode::deserialize(player_byte_slice)
+            // every byte of the slice must belong to the input: `bincode::deserialize` would accept
+            // (and ignore) trailing bytes, so a frame of the wrong size passed as long as its length
+            // was divisible by the number of players - always, for an endpoint with one player
+            let input: T::Input = bincode::DefaultOptions::new()
+                .with_fixint_encoding()
+                .reject_trailing_bytes()
+                .deserialize(player_byte_slice)
                 .map_err(|e| format!("failed to deserialize input for player {p}: {e}"))?;
             player_inputs.push(PlayerInput::new(self.frame, input));
         }
